@@ -245,10 +245,18 @@ def _evaluate_policy_chunking(ctx, rows, comp, solo, ci):
                     f"items (batch_size {bs})", constraint="evaluate_policy:count", composition=ci, batch_size=bs,
                     policy=ctx["spec"], cfg=cfg)
         raise StopRun()
+    acts = torch.as_tensor(res["actions"]).detach()
     for j, i in enumerate(order):
         rS = solo[i][0]["reward"][0]
         rB = float(rew[j])
-        T = len(solo[i][0]["actions"][0])
+        aS = solo[i][0]["actions"][0]
+        T = len(aS)
+        if acts.dim() == 2 and acts.shape[0] == len(order) and [int(x) for x in acts[j, :T].tolist()] != list(aS):
+            # other greedy actions than alone: whether that is a rounding flip or a composition effect is decided
+            # (with the log-prob gaps at hand) by the direct forward of the same chunks above; here only
+            # "same actions, other reward" is judged
+            run.probe("evaluate_policy_other_actions_skipped")
+            continue
         if (rS != rS) != (rB != rB) or (rS == rS and abs(rS - rB) > _tol(rS, T)):
             run.violate(scope, "reward_differs", f"evaluate_policy (batch_size {bs}) reports {rB!r} for dataset item {j} "
                         f"(instance {i}); decoded alone the instance gets {rS!r}", constraint="evaluate_policy:reward",
